@@ -1,6 +1,7 @@
 package cs
 
 import (
+	"strings"
 	"fmt"
 
 	"package-operator.run/internal/packages/verifsim/store"
@@ -68,7 +69,7 @@ func ownerRevision(p *Pass, owner store.Obj) int64 {
 }
 
 // adoptionPermitted is the adoption table of the C01 statement.
-func adoptionPermitted(obs, owner store.Obj, rev int64, previous []store.Obj, cp, strategy string, forced bool) (bool, string) {
+func adoptionPermitted(w *World, obs, owner store.Obj, rev int64, previous []store.Obj, cp, strategy string, forced bool) (bool, string) {
 	objRev, ok := RecordedRevision(obs)
 	if !ok {
 		return false, "revision annotation unparsable"
@@ -103,6 +104,14 @@ func adoptionPermitted(obs, owner store.Obj, rev int64, previous []store.Obj, cp
 				n, _ := rm["name"].(string)
 				u, _ := rm["uid"].(string)
 				if c.Group == PKOGroup && c.Kind == phaseKindFor(po) && c.Name == n && c.UID == u {
+					byPrev = true
+				}
+			}
+			// ground truth beside PKO's own bookkeeping in status.remotePhases: the controller is a
+			// phase object that exists and is itself controlled by the previous revision
+			if w != nil && c.Group == PKOGroup && c.Kind == phaseKindFor(po) {
+				pk := store.Key{Group: PKOGroup, Kind: c.Kind, Namespace: store.Str(po, "metadata", "namespace"), Name: c.Name}
+				if pho, ok := w.Mgmt.Objs[pk]; ok && store.Str(pho, "metadata", "uid") == c.UID && IsControlledBy(pho, po, "native") {
 					byPrev = true
 				}
 			}
@@ -176,7 +185,7 @@ func (m *MonC01) OnPassEnd(w *World, p *Pass) {
 				continue // revision could not be established from what the pass read
 			}
 			m.touch()
-			ok, why := adoptionPermitted(obs, owner, rev, previous, so.Collision, strategy, w.Cfg.ForceAdoption)
+			ok, why := adoptionPermitted(nil, obs, owner, rev, previous, so.Collision, strategy, w.Cfg.ForceAdoption)
 			if !ok {
 				w.Report(Violation{Property: "C01", Rule: "unasked-write", Sig: shortSite(r.Site) + "/" + r.Verb, Seq: r.Seq,
 					Msg: fmt.Sprintf("pass %d of %s %s (revision %d, %s) issued %s on %s which it observed as not controlled by it and not adoptable (%s; collisionProtection=%s; observed owners=%v rev=%q)",
@@ -204,7 +213,7 @@ func (m *MonC01) OnPassEnd(w *World, p *Pass) {
 			continue
 		}
 		m.touch()
-		ok, why := adoptionPermitted(obs, owner, rev, previous, so.Collision, strategy, w.Cfg.ForceAdoption)
+		ok, why := adoptionPermitted(nil, obs, owner, rev, previous, so.Collision, strategy, w.Cfg.ForceAdoption)
 		objRev, parsable := RecordedRevision(obs)
 		w.Stats.Probe("c01-decision/" + why)
 		switch {
@@ -242,6 +251,63 @@ func (m *MonC01) OnPassEnd(w *World, p *Pass) {
 		if !reported {
 			w.Report(Violation{Property: "C01", Rule: "refusal-reported", Sig: "not-reported", Seq: p.EndSeq,
 				Msg: fmt.Sprintf("pass %d of %s %s refused to adopt %s but did not report Available=False/CollisionDetected (pass error: %v)", p.ID, p.Ctrl, p.Key, refusedKey, p.Err)})
+		}
+	}
+}
+
+// OnQuiescent (after the plan's resync round): a refusal that is still standing when everything has settled
+// and every ObjectSet was reconciled once more on a caught-up cache must be justified by the
+// state of the cluster itself, not only by PKO's bookkeeping (status.remotePhases of the previous
+// revision): "a permitted adoption is always carried out".
+func (m *MonC01) OnQuiescent(w *World, epoch int) {
+	if !w.resynced {
+		return // only after a resync round at quiescence: every refusal standing now was re-decided on a caught-up cache
+	}
+	for _, k := range sortedKeys(w.Mgmt.Objs) {
+		if k.Group != PKOGroup || !isObjectSetKind(k.Kind) {
+			continue
+		}
+		set := w.Mgmt.Objs[k]
+		if isTeardownOwner(set) || isSpecPaused(set) {
+			continue
+		}
+		c := FindCond(set, "Available")
+		if c == nil || c.Status != "False" || c.Reason != "CollisionDetected" {
+			continue
+		}
+		rev := store.Int(set, "status", "revision")
+		if rev == 0 {
+			continue
+		}
+		var previous []store.Obj
+		prev, _ := store.Get(set, "spec", "previous").([]any)
+		for _, px := range prev {
+			pm, _ := px.(map[string]any)
+			name, _ := pm["name"].(string)
+			previous = append(previous, w.Mgmt.Objs[store.Key{Group: PKOGroup, Kind: k.Kind, Namespace: k.Namespace, Name: name}])
+		}
+		for _, so := range SpecObjects(set, w.sliceLookup(set)) {
+			if so.Class == "hosted-cluster" {
+				continue
+			}
+			ok := w.normKey("mgmt", so.Key)
+			obj, exists := w.Mgmt.Objs[ok]
+			// the condition names the refused object as "object <ns>/<name> kind:<Kind>:"
+			if !exists || !strings.Contains(c.Message, "/"+ok.Name+" kind:"+ok.Kind+":") {
+				continue
+			}
+			ctrlBySetOrItsPhase := IsControlledBy(obj, set, "native")
+			if po, has := w.Mgmt.Objs[phaseObjectKey(set, so.PhaseName)]; has && IsControlledBy(obj, po, "native") {
+				ctrlBySetOrItsPhase = true
+			}
+			if ctrlBySetOrItsPhase {
+				continue
+			}
+			m.touch()
+			if permitted, why := adoptionPermitted(w, obj, set, rev, previous, so.Collision, "native", w.Cfg.ForceAdoption); permitted {
+				w.Report(Violation{Property: "C01", Rule: "refusal-permanent", Sig: why, Msg: fmt.Sprintf("at quiescence %s still reports %q for %s although the object is adoptable (%s): owners %v, recorded revision %q, own revision %d", k, c.Message, ok, why, Owners(obj, "native"), store.Annotations(obj)[annRevision], rev)})
+				return
+			}
 		}
 	}
 }
